@@ -1,6 +1,7 @@
 (* Property C08 — write protection: sealed or accessor-protected values cannot be changed.
    Only statements and [exact]; proofs live in Proofs/SymCoreC08.v. *)
 From PG Require Import Common.Tactics Model.SymCoreDefs Model.SymCoreOps Model.SymCoreSpec Proofs.SymCoreBase Proofs.SymCoreC08.
+From PG Require Import Model.SymCoreC02 Proofs.SymCoreExtWF.
 From Coq Require Import NArith.
 
 (* Every operation of the enumerated [mutating] set (rebind and its aliases apart, see below) attempted on a target
@@ -83,3 +84,14 @@ Theorem C08_scope_precedence : forall sc o fl,
   writable_via_accessors (push_aw o sc) fl = match o with Some b => b | None => f_aw fl end.
 Proof. intros; split; [apply innermost_sealed_wins | apply innermost_aw_wins]. Qed.
 Print Assumptions C08_scope_precedence.
+
+(* Slice assignment l[a:b:c] = vs and slice deletion del l[a:b:c] (C02 extension of the model, [step_x]) are writes through
+   accessors: on a list that is treated as sealed, or whose accessors are not writable, they are refused with
+   WritePermissionError and the whole state is exactly as it was -- whatever the slice and the values. *)
+Theorem C08_slice_write_refused : forall q st sc ps x tid pa pt fl its,
+  get_at st ps = Some (Node tid KList pa pt fl its) -> slice_write x = true ->
+  treats_as_sealed sc fl = true \/ writable_via_accessors sc fl = false ->
+  (exists rx, resolve_xop st x = Some rx) ->
+  step_x q st sc ps x = (st, Err EWrite).
+Proof. exact slice_write_refused. Qed.
+Print Assumptions C08_slice_write_refused.
